@@ -522,7 +522,7 @@ def _kf_pd_null_dups(family, case, disc):
 
 
 FAMILIES = [
-    Family("differential", evaluate, strategy=shared_case, n_quick=800, n_thorough=5000, shards_quick=4, shards_thorough=16,
+    Family("differential", evaluate, strategy=shared_case, n_quick=1600, n_thorough=5000, shards_quick=4, shards_thorough=16,
            required_labels=["parsers=none", "check=str_matches", "check=in_range", "check=isin"]),
 ]
 
